@@ -6,8 +6,9 @@ ID = "C17"
 THM_MODULES = ["Minicbor.Thm.C17"]
 P = "Minicbor.C17."
 REQUIRED = [P + n for n in """ser_eq_encW toW_valid ser_wellformed ser_representation
-roundtrip_plain roundtrip_partial roundtrip_statement_false option_in_option_counterexample
-char_behind_content_counterexample unit_behind_content_counterexample content_roundtrip_examples
+roundtrip_plain roundtrip_content roundtrip_partial roundtrip_statement_false flatChar_not_good
+fromC_rt flat_rt itag_rt atag_rt untagged_rt hasT_ok
+option_in_option_counterexample char_behind_content_counterexample unit_behind_content_counterexample content_roundtrip_examples
 unknown_struct_fields_ignored indefinite_seq_accepted indefinite_map_accepted indefinite_struct_accepted
 de_any_consumes_one_item de_any_on_ser""".split()]
 PACKAGES = ["hserde"]
@@ -30,7 +31,7 @@ KNOWN_IDS = {"K6": "K6", "K7": "K7"}
 
 MUST = {"wide": dict(wide=True), "flip": dict(flip=0.5), "extra": dict(extra=0.8), "shuffle": dict(shuffle=1.0),
         "mixed": dict(wide=True, flip=0.3, extra=0.4, shuffle=0.3)}
-FREE = {"chunk": dict(chunk=0.6), "fliptup": dict(fliptup=True, flip=0.5), "all": dict(wide=True, flip=0.4, fliptup=True, chunk=0.3, extra=0.3)}
+FREE = {"fnarrow": dict(fnarrow=0.9), "chunk": dict(chunk=0.6), "fliptup": dict(fliptup=True, flip=0.5), "all": dict(wide=True, flip=0.4, fliptup=True, chunk=0.3, extra=0.3)}
 
 
 def model_op(op):
@@ -94,6 +95,8 @@ def judge_de(op, impl, model, spec):
             c = classify(t, v, content_first=True)
             if c is None:
                 return "violation"
+    if model == "unmodelled" and mode in ("mut", "trunc"):
+        return "ok"          # the model declines (serde's f64->f32 coercion behind Content); only random mutations can get there
     return "ok" if impl == model else "corr"
 
 
@@ -133,6 +136,14 @@ def streams(rng, tier):
                     mb[rng.randrange(len(mb))] = rng.choice([0x00, 0x17, 0x18, 0x1b, 0x20, 0x38, 0x3b, 0x40, 0x5f, 0x60, 0x7f, 0x80, 0x9f, 0xa0, 0xa1,
                                                              0xbf, 0xc0, 0xf4, 0xf6, 0xf7, 0xf9, 0xfa, 0xfb, 0xff, rng.getrandbits(8)])
                     hostile.append(f"de {name} {T.hx(bytes(mb))} #m=mut")
+    # floats of another width (and NaNs) where a float is read, directly and through the Content buffer
+    for f32 in T.INTERESTING_F32 + [0x7f800001, 0xff800001, 0xfffef5a9, 0x7fc00001]:
+        for name in ("Untagged", "f64", "f32", "vec_untagged"):
+            h = "fa%08x" % f32
+            hostile.append(f"de {name} {'81' + h if name == 'vec_untagged' else h} #m=mut")
+    for f16 in (0x0000, 0x8000, 0x3c00, 0x7c00, 0xfc00, 0x7e00, 0x7c01, 0xfc01, 0x0001, 0x7bff):
+        for name in ("Untagged", "f64", "f32"):
+            hostile.append(f"de {name} f9{f16:04x} #m=mut")
     # every integer type at every width edge
     for kind, (lo, hi) in T.INT_KINDS.items():
         for k in range(0, 65):
